@@ -93,6 +93,9 @@ def run_create(version, key, detach, single_hop, auth, ports_forms, entry='creat
         if impl.boot != ['ok']:
             return dict(viol=[('bootstrap', 'x', repr(impl.boot))], obs=('x',), log=log)
         w.reactor.next_port = 48000
+        # (for some requests the probe ports that find free local ports close a reactor turn later, as real ones do: the
+        # allocation of each port then completes asynchronously)
+        w.reactor.async_close = bool(detach and len(ports_forms) >= 2)
         if bad is None:
             args = []
             want_ports = []
@@ -141,6 +144,8 @@ def run_create(version, key, detach, single_hop, auth, ports_forms, entry='creat
               rec = DRec(d)
           except Exception as e:
               raised = e
+          while w.reactor.finish_closes():
+              pass
           sim.pump()
           cmds = sim.commands[base:]
           adds = [c for c in cmds if c.startswith('ADD_ONION')]
